@@ -172,7 +172,7 @@ def pool():
     return _POOL
 
 
-VALUES = VAL.V + VAL.V_OBJ[:24] + [NP]
+VALUES = VAL.V + VAL.V_OBJ[:24] + [NP, {"z": 1}, {"z": 1, "y": 2}, {"z": 1, "y": 2, "b": 3}, {"a": "x", "z": 1}, {"a": "x", "z": 1, "y": 0, "b": "no"}, {"value": 1}, {"x1": "s", "value": 2}]
 
 
 def strip_titles(doc):
